@@ -145,7 +145,7 @@ def replay(case):
 
 
 def run(rep, tier, seed):
-    plan = dyn.standard_plan(tier, CHAINS, CHAINS_HI, held_lo='small' if tier == 'quick' else 'full', held_hi='two', sigma_hi='obj5')
+    plan = dyn.standard_plan(tier, CHAINS, CHAINS_HI, held_lo='small', held_hi='two', sigma_hi='obj5')
     rep.bounds['chains'] = ['+'.join(c) for c in CHAINS]
     # user-defined object types: a holdable that is not a Key, a subclass of Key
     for sh in ((1, 2), (1, 3), (2, 2)):
@@ -155,8 +155,8 @@ def run(rep, tier, seed):
         names, init_limit, max_states, gcap = ['keydoor.5x5', 'dynamic_obstacles.5x5', 'keydoor.7x7', 'teleport.5x5'], 200, 30000, 4
     else:
         names, init_limit, max_states, gcap = ['keydoor.5x5', 'keydoor.7x7', 'dynamic_obstacles.5x5', 'dynamic_obstacles.7x7', 'teleport.5x5',
-                                               'teleport.7x7', 'crossing.7x7'], 400, 30000, 10
-    rs, rt = dyn.run_reach(rep, names, init_limit, max_states, make_hooks, replay, 'inventory', group_cap=gcap, lineages=2 if tier == 'quick' else 3)
+                                               'teleport.7x7'], 200, 30000, 4
+    rs, rt = dyn.run_reach(rep, names, init_limit, max_states, make_hooks, replay, 'inventory', group_cap=gcap, lineages=2)
     rep.assume('object alphabet: all 9 concrete grid-object types with 2 colours, nested boxes; held items include a '
                'non-holdable object (the state space admits any declared type in the hand)')
     return rep.finish(
